@@ -10,13 +10,13 @@ import (
 )
 
 type CEnv struct {
-	x     *Exec
-	vars  map[string]SV
-	cur   HeapView
-	old   HeapView
-	wmOld *Term
-	wmCur *Term
-	qn    *int
+	x         *Exec
+	vars      map[string]SV
+	cur       HeapView
+	old       HeapView
+	wmOld     *Term
+	wmCur     *Term
+	qn        *int
 	entryVars map[string]SV // values of the parameters at function entry (for old())
 }
 
@@ -156,7 +156,16 @@ func (env *CEnv) eval(e *CExpr) SV {
 	case "field":
 		return env.fieldOf(env.eval(e.X), e.Str, e)
 	case "index":
-		s := env.resolveSeq(env.eval(e.X))
+		sv := env.eval(e.X)
+		if sv.K == KSeq && sv.Arr == nil && sv.Ty != nil {
+			if et := elemTypeOf(sv.Ty); et != nil && typeKind(et) != KInt {
+				// element of a slice of structs / pointers: read through the element heaps
+				i := env.evalInt(e.Y)
+				cp := sv
+				return env.x.loadFrom(nil, env.cur, &Loc{Slice: &cp, Index: i, ElemTy: et}, false)
+			}
+		}
+		s := env.resolveSeq(sv)
 		i := env.evalInt(e.Y)
 		return intSV(Select(s.Arr, Add(s.Off, i)), types.Typ[types.Int])
 	case "slice":
@@ -216,8 +225,17 @@ func (env *CEnv) eval(e *CExpr) SV {
 		c := env.evalBool(e.X)
 		a := env.eval(e.Y)
 		b := env.eval(e.Z)
-		if a.K != b.K {
+		if a.K != b.K && !(a.K == KFunc || b.K == KFunc) {
 			env.errf("branches of ?: differ in kind in %s", e)
+		}
+		if a.K == KFunc {
+			if a.T == nil && a.Fn != nil {
+				a.T = env.x.funcID(a)
+			}
+			if b.T == nil && b.Fn != nil {
+				b.T = env.x.funcID(b)
+			}
+			return SV{K: KFunc, T: Ite(c, a.T, b.T), Ty: a.Ty}
 		}
 		switch a.K {
 		case KInt, KRef:
@@ -270,6 +288,12 @@ func (env *CEnv) eqSV(a, b SV, e *CExpr) *Term {
 			cs = append(cs, env.eqSV(a.Fields[i], b.Fields[i], e))
 		}
 		return And(cs...)
+	}
+	if a.K == KFunc && a.T == nil && a.Fn != nil {
+		a.T = env.x.funcID(a)
+	}
+	if b.K == KFunc && b.T == nil && b.Fn != nil {
+		b.T = env.x.funcID(b)
 	}
 	if a.T == nil || b.T == nil {
 		env.errf("cannot compare in %s", e)
@@ -379,6 +403,36 @@ func (env *CEnv) call(e *CExpr) SV {
 			return boolSV(Lt(a.Id, wm))
 		}
 		return boolSV(Lt(a.T, wm))
+	case "funcval":
+		if len(e.Args) != 1 || e.Args[0].Kind != "str" {
+			env.errf("funcval(\"name\")")
+		}
+		fn := env.x.prog.byName[e.Args[0].Str]
+		if fn == nil {
+			env.errf("funcval: no function named %q", e.Args[0].Str)
+		}
+		v := SV{K: KFunc, Fn: fn, Ty: fn.Type()}
+		v.T = env.x.funcID(v)
+		return v
+	case "apply":
+		// the deterministic result of a pure callback
+		f := env.eval(e.Args[0])
+		if f.K != KFunc {
+			env.errf("apply: not a function value: %s", e.Args[0])
+		}
+		fid := f.T
+		if f.Fn != nil {
+			fid = env.x.funcID(f)
+		}
+		sigT, ok := f.Ty.Underlying().(*types.Signature)
+		if !ok || sigT.Results().Len() != 1 {
+			env.errf("apply: function with one result expected")
+		}
+		var args []SV
+		for _, a := range e.Args[1:] {
+			args = append(args, env.eval(a))
+		}
+		return env.x.pureCallResult(fid, sigString(f.Ty), sigT.Results().At(0).Type(), args)
 	case "ext":
 		// an uninterpreted predicate standing for a dependency (assumed contract, DESIGN 4.2)
 		if len(e.Args) < 1 || e.Args[0].Kind != "str" {
